@@ -82,6 +82,11 @@ blockScan:
 		}
 	}
 
+	// Check if there is enough space for the return label.
+	if returnLabelStart+returnLabel.EncodedSize() > len(block) {
+		return 0, ErrBufTooSmall
+	}
+
 	// Add return label at correct position and reverse it.
 	labelSlot := block[returnLabelStart : returnLabelStart+returnLabel.EncodedSize()]
 	binary.PutUvarint(labelSlot, uint64(returnLabel))
